@@ -400,6 +400,38 @@ def _check_final(plan, res, tr, value, where):
         res.violate("not-optimal-unlimited", where=where, got=canon(value), optimum=canon(opt))
 
 
+def _uninterruptible(plan, res, tr, out, clause, detail, vF, schedule):
+    """The algorithm answered this instance without a single clock reading, also under a finite limit (a shortcut for
+    a trivial input, say): there is no interruption point to enumerate. What can be judged is judged - the answer is
+    valid and optimal, and finite limits give the same value. Whether the clock seam is reached AT ALL is decided
+    over the whole batch (batch_harness_errors): a tree that reads another clock shows no reading in ANY run."""
+    res.note("runs_without_any_clock_reading")
+    if clause not in (None, "no-solution"):
+        res.violate(clause, where="unlimited", **detail)
+    _check_final(plan, res, tr, vF, "unlimited")
+    for lim in (0.5, 7.5, 1.0e6):
+        clock = SimClock(schedule, max_reads=plan["r_max"] + 50)
+        o = _call(plan, clock, lim)
+        res.evaluations += 1
+        cl, det, v, _ = _judge(plan, o)
+        tr.add("limit-no-readings", limit=lim, reads=clock.reads, outcome=canon(o[1]), clause=cl, value=canon(v))
+        if cl not in (None, "no-solution"):
+            res.violate(cl, limit=lim, **det)
+        elif vF is not None and v is not None and v != vF and clock.reads == 0:
+            res.violate("worse-with-more-time" if v < vF else "lost-solution", limit_before=lim, value_before=canon(v),
+                        cut_after="unlimited", value_after=canon(vF), note="no clock reading in either run")
+
+
+def batch_harness_errors(results):
+    """-> list of harness-error strings decided over the whole batch."""
+    clocked = sum(d["notes"].get("clocked_runs", 0) for d in results.values())
+    blind = sum(d["notes"].get("runs_without_any_clock_reading", 0) for d in results.values())
+    if clocked >= 20 and blind * 2 > clocked:
+        return [f"clock seam not reached: {blind} of {clocked} complete-greedy / CBLDM runs made no clock reading even under a finite "
+                f"limit - the tree under test seems to read a clock the simulator does not own; nothing can be concluded"]
+    return []
+
+
 def _execute_sweep(plan, res, tr):
     schedule = {"kind": "uniform", "t0": 0.0, "tick": 1.0}
     ref = _reference_run(plan, res, tr, schedule)
@@ -409,9 +441,10 @@ def _execute_sweep(plan, res, tr):
     R = len(readings)            # number of clock readings of the un-interrupted run (entry reading included)
     clause, detail, vF, _ = _judge(plan, out)
     tr.add("reference", readings=R, outcome=canon(out[1]), clause=clause, value=canon(vF))
+    res.note("clocked_runs")
     if R == 0:
-        raise RuntimeError("clock seam not reached: the un-interrupted run made no clock reading "
-                           "(cannot enumerate interruption points)")
+        _uninterruptible(plan, res, tr, out, clause, detail, vF, schedule)
+        return
     if clause not in (None, "no-solution"):
         res.violate(clause, where="unlimited", **detail)
     _check_final(plan, res, tr, vF, "unlimited")
@@ -542,8 +575,10 @@ def _execute_schedule(plan, res, tr):
     R = len(readings)
     clause, detail, vF, _ = _judge(plan, out)
     tr.add("reference", readings=R, outcome=canon(out[1]), clause=clause, value=canon(vF))
+    res.note("clocked_runs")
     if R == 0:
-        raise RuntimeError("clock seam not reached")
+        _uninterruptible(plan, res, tr, out, clause, detail, vF, schedule)
+        return
     if clause not in (None, "no-solution"):
         res.violate(clause, where="unlimited", **detail)
     _check_final(plan, res, tr, vF, "unlimited")
